@@ -1,11 +1,11 @@
 (* C14 — genesis export/import is lossless for everything the genesis format carries.
    Partial: theorems for x/clp (pools, providers with unlock requests, reward buckets, reward and distribution
-   periods, liquidity-protection and ratio-shifting state) and x/dispensation (records of the three statuses,
-   distributions, claims); the other six modules are covered by the real export -> import -> export comparison
-   of the check only. *)
+   periods, liquidity-protection and ratio-shifting state), x/dispensation (records of the three statuses,
+   distributions, claims) and x/margin (parameters, positions, counters); the other five modules are covered by the
+   real export -> import -> export comparison of the check only. *)
 From Coq Require Import ZArith List Bool.
 From RecordUpdate Require Import RecordUpdate.
-From Sif Require Import Base.Outcome Base.Store Base.Bank Model.ClpTypes Model.ClpPolicy Model.Dispensation Model.Genesis
+From Sif Require Import Base.Outcome Base.Store Base.Bank Model.ClpTypes Model.ClpPolicy Model.Dispensation Model.Margin Model.Genesis
   Proofs.DispProofs Proofs.GenesisProofs.
 Import ListNotations.
 Local Open Scope Z_scope.
@@ -31,6 +31,29 @@ Print Assumptions C14_disp_import_export.
 Theorem C14_disp_reexport : forall d, DispWF d -> export_disp (import_disp (export_disp d)) = export_disp d.
 Proof. exact reexport_disp. Qed.
 Print Assumptions C14_disp_reexport.
+
+(* x/margin: the document carries the parameters and the open positions. Importing it gives back the parameters, the
+   positions and the open counter exactly; the id counter comes back as the highest id among the open positions, which is
+   at least every stored id (a new position cannot take the id of an imported one) and at most the old counter. Premises:
+   stores in key order without empty inner lists, ids from 1, the open counter counts the stored positions (C13), every
+   id at most the id counter. *)
+Theorem C14_margin_import_export : forall c, MarginWF c ->
+  let c' := import_margin (export_margin c) in
+  mc_params c' = mc_params c /\ mc_mtps c' = mc_mtps c /\ mc_open c' = mc_open c /\
+  (forall e, In e (flatten (mc_mtps c')) -> fst (snd e) <= mc_count c') /\ 0 <= mc_count c' /\ (0 <= mc_count c -> mc_count c' <= mc_count c).
+Proof. exact import_export_margin. Qed.
+Print Assumptions C14_margin_import_export.
+Theorem C14_margin_reexport : forall c, MarginWF c -> export_margin (import_margin (export_margin c)) = export_margin c.
+Proof. exact reexport_margin. Qed.
+Print Assumptions C14_margin_reexport.
+(* what the margin document does not carry (findings F-19 and F-20): the lifetime counter when the positions opened last
+   were closed before the export, and the whitelist *)
+Theorem C14_margin_lifetime_counter_refuted : exists c, MarginWF c /\ mc_count (import_margin (export_margin c)) <> mc_count c.
+Proof. exact margin_lifetime_counter_refuted. Qed.
+Print Assumptions C14_margin_lifetime_counter_refuted.
+Theorem C14_margin_whitelist_refuted : exists c, MarginWF c /\ mc_whitelist (import_margin (export_margin c)) <> mc_whitelist c.
+Proof. exact margin_whitelist_refuted. Qed.
+Print Assumptions C14_margin_whitelist_refuted.
 
 (* the key order assumed of the dispensation tables is kept by every table update of the model *)
 Theorem C14_table_order_kept : forall (t : table drec) k v,
